@@ -763,7 +763,8 @@ pub fn run_main(id: &str, tier: Tier) -> i32 {
         std::process::exit(2);
     });
     let budget = prop.budget(tier);
-    let cpu_ms = budget.cpu_s * 1000;
+    // VP_CPU_MS: diagnostic override of the per-case CPU budget (used to measure the margin of the watchdog on the unchanged tree)
+    let cpu_ms = std::env::var("VP_CPU_MS").ok().and_then(|v| v.parse().ok()).unwrap_or(budget.cpu_s * 1000);
     let listed = known::for_property(id);
     let mut ev = Evidence {
         property_id: id.to_string(),
